@@ -172,6 +172,8 @@ type concViolation struct {
 	idx     int
 	race    string
 	checkID string
+	from    int // first episode of the process it happened in
+	fu      int // -firstuse value of that process (-1: none)
 }
 
 func checkConc(prop, tier string, seed uint64, spec propSpec, start time.Time) int {
@@ -255,27 +257,67 @@ func checkConc(prop, tier string, seed uint64, spec propSpec, start time.Time) i
 	for i := 0; i < nw; i++ {
 		plans = append(plans, plan{targets[i%len(targets)], i})
 	}
-	results := make([]*workerResult, len(plans))
+	// One worker in four lives for the whole budget (long process histories:
+	// leaked resources, pools filling up). The others are restarted every
+	// round: a fresh process is the only place where first-use state (lazy
+	// initialisation, "already checked" flags) can be caught in the act, so
+	// each restart begins with a first-use twin episode.
+	rounds := 5
+	if tier == "thorough" {
+		rounds = 20
+	}
+	if dur < 2*rounds {
+		rounds = 1
+	}
+	var results []*workerResult
+	var rmu sync.Mutex
+	processes := 0
 	var wg sync.WaitGroup
-	for i, p := range plans {
+	for _, p := range plans {
 		wg.Add(1)
-		go func(i int, p plan) {
+		go func(p plan) {
 			defer wg.Done()
-			pfx := filepath.Join(b.Scratch, fmt.Sprintf("race-%s-%d", p.t.cfg.Name, p.worker))
-			args := []string{"conc", "-config", p.t.cfg.Name, "-seed", fmt.Sprint(seed), "-worker", fmt.Sprint(p.worker), "-pool", poolFile,
-				"-ref", refFiles[p.t.cfg.Name], "-dur", fmt.Sprintf("%ds", dur)}
-			if p.t.family != "" {
-				args = append(args, "-family", p.t.family)
+			nr, d := rounds, dur/rounds
+			if p.worker%4 == 0 || p.t.family != "" {
+				nr, d = 1, dur
 			}
-			r := runWorker(p.t.bin, args, p.t.env(pfx), time.Duration(dur)*time.Second+10*time.Minute)
-			r.cfg, r.worker = p.t.cfg.Name, p.worker
-			if rep := readRaceLog(pfx); rep != "" {
-				r.raceLogs = []string{rep}
+			from := 0
+			for round := 0; round < nr; round++ {
+				pfx := filepath.Join(b.Scratch, fmt.Sprintf("race-%s-%d-%d", p.t.cfg.Name, p.worker, round))
+				args := []string{"conc", "-config", p.t.cfg.Name, "-seed", fmt.Sprint(seed), "-worker", fmt.Sprint(p.worker), "-pool", poolFile,
+					"-ref", refFiles[p.t.cfg.Name], "-dur", fmt.Sprintf("%ds", d), "-from", fmt.Sprint(from)}
+				if p.t.family != "" {
+					args = append(args, "-family", p.t.family)
+				} else if nr > 1 {
+					args = append(args, "-firstuse", fmt.Sprint(round*nw+p.worker))
+				}
+				r := runWorker(p.t.bin, args, p.t.env(pfx), time.Duration(d)*time.Second+10*time.Minute)
+				r.cfg, r.worker = p.t.cfg.Name, p.worker
+				r.from, r.firstuse = from, -1
+				if p.t.family == "" && nr > 1 {
+					r.firstuse = round*nw + p.worker
+				}
+				if rep := readRaceLog(pfx); rep != "" {
+					r.raceLogs = []string{rep}
+				}
+				rmu.Lock()
+				results = append(results, r)
+				processes++
+				rmu.Unlock()
+				if r.exit != 0 || r.stats == nil {
+					return
+				}
+				from = int(num(r.stats, "last_idx"))
 			}
-			results[i] = r
-		}(i, p)
+		}(p)
 	}
 	wg.Wait()
+	sort.SliceStable(results, func(i, j int) bool {
+		if results[i].worker != results[j].worker {
+			return results[i].worker < results[j].worker
+		}
+		return results[i].from < results[j].from
+	})
 
 	agg := newAgg()
 	var viols []concViolation
@@ -289,16 +331,16 @@ func checkConc(prop, tier string, seed uint64, spec propSpec, start time.Time) i
 			rec := map[string]interface{}{"t": "violation", "prop": "C15", "check_id": "conc-race", "engine": "conc", "config": r.cfg, "seed": seed,
 				"worker": r.worker, "index": r.lastEp, "msg": "data race between library calls of different caller goroutines: " + raceSites(rep),
 				"race_report": normaliseRace(rep)}
-			viols = append(viols, concViolation{rec, r.cfg, r.worker, r.lastEp, rep, "conc-race"})
+			viols = append(viols, concViolation{rec, r.cfg, r.worker, r.lastEp, rep, "conc-race", r.from, r.firstuse})
 		case r.exit == 1 && len(r.viols) > 0:
 			v := r.viols[0]
-			viols = append(viols, concViolation{v, r.cfg, r.worker, int(num(v, "index")), "", fmt.Sprint(v["check_id"])})
+			viols = append(viols, concViolation{v, r.cfg, r.worker, int(num(v, "index")), "", fmt.Sprint(v["check_id"]), r.from, r.firstuse})
 		case r.exit == 0 && r.stats != nil:
 			agg.addConc(r.stats)
 		case strings.Contains(r.stderr, "fatal error: concurrent map"):
 			rec := map[string]interface{}{"t": "violation", "prop": "C15", "check_id": "conc-race-fatal", "engine": "conc", "config": r.cfg, "seed": seed,
 				"worker": r.worker, "index": r.lastEp, "msg": "runtime detected unsynchronised concurrent map access: " + firstLine(r.stderr, "fatal error")}
-			viols = append(viols, concViolation{rec, r.cfg, r.worker, r.lastEp, "", "conc-race-fatal"})
+			viols = append(viols, concViolation{rec, r.cfg, r.worker, r.lastEp, "", "conc-race-fatal", r.from, r.firstuse})
 		default:
 			infraf("conc worker %d (%s) exited with status %d (last episode %d):\n%s", r.worker, r.cfg, r.exit, r.lastEp, tail(r.stderr, 30))
 		}
@@ -309,6 +351,8 @@ func checkConc(prop, tier string, seed uint64, spec propSpec, start time.Time) i
 		cfgNames = append(cfgNames, t.cfg.Name)
 	}
 	ev := agg.evidenceConc(tier, seed, spec, cfgNames, b, npool, time.Since(start).Seconds())
+	ev["coverage"].(map[string]interface{})["worker_processes"] = processes
+	ev["coverage"].(map[string]interface{})["worker_process_note"] = "one worker in four runs as a single long-lived process; the others are restarted every round and begin each life with a first-use twin episode"
 	code := exitOK
 	reported := 0
 	known := loadKnown()
@@ -335,7 +379,7 @@ func checkConc(prop, tier string, seed uint64, spec propSpec, start time.Time) i
 				tg = t
 			}
 		}
-		path := finishConcViolation(b, tg.bin, tg.env, tg.family, poolFile, refFiles[v.cfg], seed, v, tier)
+		path := finishConcViolation(b, tg.bin, tg.env, tg.family, poolFile, refFiles[v.cfg], seed, v, tier, npool)
 		fmt.Printf("VIOLATION property=%s replay=%s\n", prop, path)
 		fmt.Printf("  check=%s config=%s worker=%d episode=%d: %v\n", v.checkID, v.cfg, v.worker, v.idx, v.rec["msg"])
 		reported++
@@ -395,7 +439,7 @@ func concDeterminism(b *Build, bin, poolFile, refFile string, seed uint64, n, ru
 
 // finishConcViolation reproduces the failing episode in a fresh process,
 // minimises it and writes a self-contained replay file.
-func finishConcViolation(b *Build, bin string, envf func(string) []string, family, poolFile, refFile string, seed uint64, v concViolation, tier string) string {
+func finishConcViolation(b *Build, bin string, envf func(string) []string, family, poolFile, refFile string, seed uint64, v concViolation, tier string, npool int) string {
 	dir := filepath.Join(verifDir(), "replays")
 	os.MkdirAll(dir, 0o755)
 	path := filepath.Join(dir, fmt.Sprintf("C15-%d-%s-w%d-e%d.json", seed, v.cfg, v.worker, v.idx))
@@ -406,7 +450,11 @@ func finishConcViolation(b *Build, bin string, envf func(string) []string, famil
 		base = append(base, "-family", family)
 	}
 	// the explicit episode
-	d := runWorker(bin, append(append([]string{}, base...), "-from", fmt.Sprint(v.idx), "-dumpep"), nil, 5*time.Minute)
+	dumpArgs := append(append([]string{}, base...), "-from", fmt.Sprint(v.idx), "-dumpep")
+	if v.fu >= 0 && v.idx == v.from {
+		dumpArgs = append(dumpArgs, "-firstuse", fmt.Sprint(v.fu))
+	}
+	d := runWorker(bin, dumpArgs, nil, 5*time.Minute)
 	for _, l := range strings.Split(string(d.stdout), "\n") {
 		if m := decodeObj([]byte(l)); m != nil && m["t"] == "episode" {
 			rec["episode"] = m["episode"]
@@ -422,9 +470,17 @@ func finishConcViolation(b *Build, bin string, envf func(string) []string, famil
 	if !ok {
 		// try with the process history of the worker
 		pfx := filepath.Join(b.Scratch, "hist")
-		r := runWorker(bin, append(append([]string{}, base...), "-from", "0", "-to", fmt.Sprint(v.idx+1)), envf(pfx), 30*time.Minute)
+		hargs := append(append([]string{}, base...), "-from", fmt.Sprint(v.from), "-to", fmt.Sprint(v.idx+1))
+		if v.fu >= 0 {
+			hargs = append(hargs, "-firstuse", fmt.Sprint(v.fu))
+		}
+		r := runWorker(bin, hargs, envf(pfx), 30*time.Minute)
 		if r.exit == 66 || r.exit == 1 {
-			rec["history"] = v.idx
+			rec["history"] = v.idx - v.from
+			rec["history_from"] = v.from
+			rec["history_firstuse"] = v.fu
+			rec["pool_n"] = npool
+			rec["family"] = family
 			rec["note"] = "fails only after the preceding episodes of the same worker ran in the same process (process history); replay re-runs them"
 		} else {
 			rec["note"] = "NOT reproducible in a fresh process"
